@@ -198,9 +198,48 @@ func (pkgEngine) Gen(r *Rand, tier string) any {
 	nops := r.Range(2, 7)
 	for i := 0; i < nops; i++ {
 		op := PkgOp{Entry: PickStr(r, []string{"load", "load", "eval"})}
-		nf := r.Range(1, 4)
-		for j := 0; j < nf; j++ {
-			op.Forms = append(op.Forms, g.probe(g.T(r.Range(1, 3))))
+		if r.Chance(2, 5) {
+			// scenario: define and export in one package, import into another,
+			// then redefine the source (the import is a snapshot)
+			src, dst := PickStr(r, pkgNames), PickStr(r, pkgNames)
+			n1, n2, fn := g.name(), g.name(), PickStr(r, funNames)
+			steps := []*Node{
+				Call("in-package", QS(src)),
+				Call("set", QS(n1), g.val()),
+				L(A("defun"), A(fn), L(), Call("list", g.val(), Call("sim:cur-pkg"), Call("ignore-errors", A(n1)))),
+				Call("export", QS(n1), QS(fn)),
+				Call("export", QS(n2)), // possibly unbound: a partial import
+				Call("in-package", QS(dst)),
+				Call("use-package", QS(src)),
+				Call("set", QS(src+":"+n1), g.val()),
+				Call("set", QS(n1), g.val()),
+				L(A(fn)),
+				L(A(src + ":" + fn)),
+				Call("list", A(n1), A(src+":"+n1)),
+			}
+			// drop / reorder a few steps and put fault points on some
+			for _, st := range steps {
+				if r.Chance(1, 6) {
+					continue
+				}
+				if r.Chance(1, 6) {
+					g.fpN++
+					st = Call("sim:fp", I(g.fpN), st)
+				}
+				if r.Chance(1, 5) {
+					st = Call("ignore-errors", st)
+				}
+				op.Forms = append(op.Forms, g.probe(st))
+			}
+			if r.Chance(1, 3) {
+				// the whole scenario inside a nested load that fails or not
+				op.Forms = []*Node{g.probe(Call("ignore-errors", Call("load-string", Str(Src(op.Forms))))), g.probe(Call("sim:cur-pkg"))}
+			}
+		} else {
+			nf := r.Range(1, 4)
+			for j := 0; j < nf; j++ {
+				op.Forms = append(op.Forms, g.probe(g.T(r.Range(1, 3))))
+			}
 		}
 		c.Ops = append(c.Ops, op)
 	}
